@@ -374,7 +374,7 @@ func c11DoCall(cl c11Call, tmpdir string) (string, error) {
 	case "url-nil":
 		old := http.DefaultTransport
 		http.DefaultTransport = &stubTransport{body: cl.html}
-		pi = eng.Protect(func() { res, err = distiller.ApplyForURL(cl.url, 5*time.Second, nil) })
+		pi = eng.Protect(func() { res, err = distiller.ApplyForURL(cl.url, 5*time.Minute, nil) })
 		http.DefaultTransport = old
 	case "apply":
 		doc, perr := dom.Parse(strings.NewReader(cl.html))
